@@ -360,11 +360,22 @@ SendBegin(s) ==
                  rkey, rdisp, rmeth, rent, rst, rresp, rout, rttl, rver,
                  ppc, pkey, ptodo, pcur, pall, starts, nver, purges, kills, drops>>
 
-(* saveToStore (may fail), then Unlock *)
-Save(r, ok) ==
+(* saveToStore, first half: the record is serialised and handed to the store, which has not consumed the bytes
+   yet (other requests may serialise their own records meanwhile) *)
+SaveBegin(r) ==
   LET e == rent[r]  E == est[e]  d == E.disp IN
   /\ pc[r] \in {"cab.save", "hfp.save"}
-  /\ IF HasStore[d] /\ ~(PurgeFences /\ E.removed)
+  /\ HasStore[d] /\ ~(PurgeFences /\ E.removed)
+  /\ pc' = [pc EXCEPT ![r] = IF pc[r] = "cab.save" THEN "cab.saving" ELSE "hfp.saving"]
+  /\ UNCHANGED <<now, ticks, lru, ent, est, nextEnt, elock, slock, store, rkey, rdisp, rmeth, rent, rst, rresp, rout, rttl, rsend, rver,
+                 ppc, pkey, ptodo, pcur, pall, starts, nver, purges, kills, drops, obs>>
+
+(* saveToStore, second half (the store writes, or fails), then Unlock; without a store: just Unlock *)
+Save(r, ok) ==
+  LET e == rent[r]  E == est[e]  d == E.disp IN
+  /\ \/ pc[r] \in {"cab.saving", "hfp.saving"}
+     \/ (pc[r] \in {"cab.save", "hfp.save"} /\ ~(HasStore[d] /\ ~(PurgeFences /\ E.removed)))
+  /\ IF pc[r] \in {"cab.saving", "hfp.saving"}
      THEN /\ ok \in SaveResults
           /\ store' = IF ok THEN [store EXCEPT ![d][E.key] =
                                     [status |-> E.status, resp |-> E.resp,
@@ -481,6 +492,7 @@ ReqStep(r) ==
   \/ UpStart(r)
   \/ \E out \in Outcomes, T \in TTLs \cup {0, 1} : FetchEnd(r, out, T)
   \/ CLock(r) \/ HLock(r) \/ SendBegin(r)
+  \/ SaveBegin(r)
   \/ \E ok \in BOOLEAN : Save(r, ok)
   \/ End(r)
 
@@ -515,7 +527,7 @@ LiveSpec ==
        /\ WF_vars(AgeStep(r)) /\ WF_vars(UpStart(r))
        /\ WF_vars(\E out \in Outcomes, T \in TTLs \cup {0, 1} : FetchEnd(r, out, T))
        /\ WF_vars(CLock(r)) /\ WF_vars(HLock(r)) /\ WF_vars(SendBegin(r))
-       /\ WF_vars(\E ok \in BOOLEAN : Save(r, ok)) /\ WF_vars(End(r))
+       /\ WF_vars(SaveBegin(r)) /\ WF_vars(\E ok \in BOOLEAN : Save(r, ok)) /\ WF_vars(End(r))
   /\ \A p \in Purgers : WF_vars(PurgeRemove(p)) /\ WF_vars(PurgeFence(p)) /\ WF_vars(\E ok \in BOOLEAN : PurgeDelete(p, ok))
 
 -----------------------------------------------------------------------------
@@ -550,8 +562,8 @@ L_PurgeCompletes == \A p \in Purgers : (ppc[p] # "idle") ~> (ppc[p] = "idle")
 TypeOK ==
   /\ now \in Nat /\ nextEnt \in 1..(MaxEnt + 1)
   /\ \A r \in Req : pc[r] \in {"idle", "lookup.lock", "get.lock", "get.recv", "recv", "get.woken", "get.read2",
-                               "age.lock", "next", "upstream", "cab.lock", "cab.send", "cab.sending", "cab.save",
-                               "hfp.lock", "hfp.send", "hfp.sending", "hfp.save", "end"}
+                               "age.lock", "next", "upstream", "cab.lock", "cab.send", "cab.sending", "cab.save", "cab.saving",
+                               "hfp.lock", "hfp.send", "hfp.sending", "hfp.save", "hfp.saving", "end"}
   /\ \A e \in 1..MaxEnt : est[e].status \in {"unknown", "fetching", "hit", "hitForPass"}
 
 Owner(e) == {r \in Req : rent[r] = e /\ rst[r] = "fetching"
